@@ -4,7 +4,25 @@ import (
 	"fmt"
 
 	acmelib "github.com/squadracorsepolito/acmelib"
+	"github.com/squadracorsepolito/acmelib/dbc"
 )
+
+// globalRoot is a package-level variable of the library (overlay hook), snapshotted under its name.
+type globalRoot struct {
+	Name string
+	Ptr  any
+}
+
+func globalRoots() []any {
+	var rs []any
+	for _, g := range acmelib.VerifC18Globals() {
+		rs = append(rs, globalRoot{"acmelib." + g.Name, g.Ptr})
+	}
+	for _, g := range dbc.VerifC18Globals() {
+		rs = append(rs, globalRoot{"dbc." + g.Name, g.Ptr})
+	}
+	return rs
+}
 
 // world is one shared model built by a random construction history through the public API:
 // several buses sharing nodes (one interface per bus), signal types, units, enums, attributes
@@ -25,6 +43,7 @@ type world struct {
 	detached []any
 
 	hasMux   bool
+	deep     bool
 	hintOps  int // failing mutators that set and clear an error-context hint
 	buildOps int
 	buildErr int
@@ -349,9 +368,85 @@ func buildWorld(r *rng, idx int, allowMux bool) *world {
 			}
 		}
 	}
-	w.desc = fmt.Sprintf("buses=%d nodes=%d ifaces=%d msgs=%d sigs=%d types=%d enums=%d mux=%v hintops=%d builderr=%d/%d",
-		len(w.buses), len(w.nodes), len(w.ifaces), len(w.msgs), len(w.sigs), len(w.types), len(w.enums), w.hasMux, w.hintOps, w.buildErr, w.buildOps)
+	if allowMux {
+		w.addDeepNesting(r)
+	}
+	w.desc = fmt.Sprintf("deep=%v buses=%d nodes=%d ifaces=%d msgs=%d sigs=%d types=%d enums=%d mux=%v hintops=%d builderr=%d/%d",
+		w.deep, len(w.buses), len(w.nodes), len(w.ifaces), len(w.msgs), len(w.sigs), len(w.types), len(w.enums), w.hasMux, w.hintOps, w.buildErr, w.buildOps)
 	return w
+}
+
+// addDeepNesting adds a message whose payload nests as deep as the model allows:
+// multiplexer > multiplexer > enum signal (with values) + standard signal (type, unit), every
+// level with attributes and descriptions, sent on the first bus.  String()/stringify reach their
+// greatest indentation depth here, the exporters their multiplexer paths.
+func (w *world) addDeepNesting(r *rng) bool {
+	if len(w.ifaces) == 0 || len(w.enums) == 0 {
+		return false
+	}
+	ok := true
+	step := func(f func() error) {
+		if ok && !try(w, f) {
+			ok = false
+		}
+	}
+	msg := acmelib.NewMessage("deep_msg", acmelib.MessageID(900+r.intn(50)), 8)
+	msg.SetDesc("deep message")
+	outer, err := acmelib.NewMultiplexerSignal("deep_outer_mux", 2, 40)
+	if err != nil {
+		return false
+	}
+	inner, err := acmelib.NewMultiplexerSignal("deep_inner_mux", 2, 24)
+	if err != nil {
+		return false
+	}
+	en := w.enums[0]
+	es, err := acmelib.NewEnumSignal("deep_enum_sig", en)
+	if err != nil {
+		return false
+	}
+	es.SetDesc("deep enum signal")
+	ss, err := acmelib.NewStandardSignal("deep_std_sig", w.types[len(w.types)-1])
+	if err != nil {
+		return false
+	}
+	if len(w.units) > 0 {
+		ss.SetUnit(w.units[0])
+	}
+	step(func() error { return inner.InsertSignal(es, 0, 1) })
+	step(func() error { return inner.InsertSignal(ss, 0, 0) })
+	step(func() error { return outer.InsertSignal(inner, 0, 1) })
+	if fl, err := acmelib.NewStandardSignal("deep_flag_sig", w.types[0]); err == nil {
+		step(func() error { return outer.InsertSignal(fl, 0, 0) })
+	}
+	step(func() error { return msg.AppendSignal(outer) })
+	for _, a := range w.attrs {
+		if a.Type() == acmelib.AttributeTypeString {
+			a := a
+			try(w, func() error { return es.AssignAttribute(a, "deep") })
+			try(w, func() error { return inner.AssignAttribute(a, "deep") })
+		}
+	}
+	var ni *acmelib.NodeInterface
+	for _, x := range w.ifaces {
+		if x.ParentBus() != nil {
+			ni = x
+			break
+		}
+	}
+	if ni == nil || !ok {
+		return false
+	}
+	step(func() error { return ni.AddSentMessage(msg) })
+	if !ok {
+		return false
+	}
+	w.msgs = append(w.msgs, msg)
+	w.muxes = append(w.muxes, outer, inner)
+	w.sigs = append(w.sigs, outer, inner, es, ss)
+	w.hasMux = true
+	w.deep = true
+	return true
 }
 
 // roots of the deep snapshot: everything the harness holds plus the package-level objects
@@ -385,6 +480,6 @@ func (w *world) roots() []any {
 		rs = append(rs, x)
 	}
 	rs = append(rs, w.detached...)
-	rs = append(rs, acmelib.VerifC18Globals()...)
+	rs = append(rs, globalRoots()...)
 	return rs
 }
